@@ -206,6 +206,11 @@ class Monitor(object):
             for n, p in self.cfg.services:
                 self.protos.setdefault(n, p)
             self.stats["reloads"] += 1
+            now_ = set(n for n, _ in self.cfg.services)
+            for inst in self.open.values():
+                # an OK from a service that is taken out of the file (or re-spelled) stops counting, also if it comes back later
+                inst.ok_exact = set(x for x in getattr(inst, "ok_exact", set()) if x in now_)
+                inst.ok_from = set(x.lower() for x in inst.ok_exact)
             for inst in self.open.values():
                 if not getattr(inst, "crossed_reload", False):
                     inst.crossed_reload = True
@@ -300,7 +305,11 @@ class Monitor(object):
             text = ev["text"]
             if re.match(r"^OK( |$)", text):
                 final = True
-                i.ok_from.add(svc.lower())
+                # the OK counts for a class rule (xreply_ok) while the service is in the file - as spelled there; one that arrives from a
+                # service a reload has removed (the answer was still owed) never does
+                if any(n == svc for n, _ in self.cfg.services):
+                    i.ok_exact = getattr(i, "ok_exact", set()) | {svc}
+                    i.ok_from.add(svc.lower())
                 if text.startswith("OK ") and protoname in proto.LOGIN_TYPES:
                     acct = text[3:].split(" ")[0][:64]
                     if acct:
